@@ -16,6 +16,8 @@ CASES = [
     ("Checkpoint", "CheckpointBug_label_per_call.cfg", "CommittedUntorn"),
     ("Checkpoint", "CheckpointBug_no_final_save.cfg", "LastIterationSaved"),
     ("Checkpoint", "CheckpointExplicitReachKF.cfg", "LastIterationSaved"),
+    ("CheckpointDirs", "CheckpointDirsBug_restore_reads_config_dir.cfg", "RestoreReadsSource"),
+    ("CheckpointDirs", "CheckpointDirsBug_default_dir_adopts_previous.cfg", "DefaultDirIsOwn"),
     ("Solvers", "SolversBug_rvi_gain_zero.cfg", "RVIResidualWithinEps"),
     ("Solvers", "SolversBug_pvi_ring_mod_period.cfg", "RingEqualsDocumented"),
     ("Solvers", "SolversBug_threshold_no_gamma.cfg", "VI"),
